@@ -98,6 +98,15 @@ Theorem C15_render_by_cases : forall env,
 Proof. exact render_by_cases. Qed.
 Print Assumptions C15_render_by_cases.
 
+(** render_injective (on unit-free types) is NOT proved.  Unconditionally it is false: names need lexical
+    side conditions (a user type called float64 renders like float). The harness checks injectivity
+    dynamically over everything it enumerates. *)
+Theorem C15_render_injective_needs_name_conditions :
+  exists (env : string -> option (string * nat)) t1 t2,
+    wf env t1 = true /\ wf env t2 = true /\ t1 <> t2 /\ render env t1 = render env t2.
+Proof. exact render_injective_needs_name_conditions. Qed.
+Print Assumptions C15_render_injective_needs_name_conditions.
+
 (** non-vacuity *)
 Definition ex_env (n : string) : option (string * nat) :=
   if String.eqb n "ext.Box" then Some ("ext.Box", 1)
